@@ -156,6 +156,9 @@ def run(ctx):
     ctx.floor("C01.P18 explicit panic sites in lexer / parser / syntax", n18, 3)
     n20 = check_zero_sizes(ctx, ctx.program("MAX"))
     ctx.floor("C01.P20 calls of windows / chunks / step_by", n20, 4)
+    from .c01_panics import check_assignment_targets
+    n21 = check_assignment_targets(ctx, ctx.program("MAX"))
+    ctx.floor("C01.P21 parser sites that fill an assignment target", n21, 4)
     # P19: the length an engine iterator claims is backed by memory or clamped
     from .c01_sizehint import check_size_hints
     n19 = check_size_hints(ctx, ctx.program("MAX"))
